@@ -20,7 +20,7 @@ RULE = ("One input of a generated dataset (float32-representable numbers) writte
         "named without or with the wrong extension are detected by content. Non-trivial: >=2 optional variable families present "
         "and at least one missing value; distinct by hash of (content, layout).")
 ASSUMPTIONS = [
-    "values are exactly representable in float32; units are compared modulo the $...$ wrapping the NetCDF reader adds",
+    "values are exactly representable in float32; units are compared modulo the $...$ wrapping the NetCDF reader adds, and must be drawable as an axis label",
     "when the NetCDF file has no location variable the ids are 0..n-1 in file order; without altitude the elevation is not compared",
     "int32 time variables are only generated for times before 2038",
 ]
@@ -40,6 +40,7 @@ def strategy(tier):
         flavor = draw(st.sampled_from(["det", "prob", "ens", "full", "full"]))
         spec = draw(gen.dataset(max_inputs=1, clim=False, flavor=flavor, core_max=3, extra_max=1, allow_drop=False,
                                 max_members=3, allow_obsless=False, var_x=True))
+        spec["var"]["units"] = draw(st.sampled_from(["K", "K", "%", "m/s", "mm", "m^2"]))
         layout = {"missing": draw(st.sampled_from(["fill", "-999", "nan", "big", "fill-9999", "missing_value"])),
                   "dtype": draw(st.sampled_from(["f4", "f4", "f8"])),
                   "time_dtype": draw(st.sampled_from(["f8", "f8", "i4"])),
@@ -50,6 +51,17 @@ def strategy(tier):
                   "axis": draw(st.sampled_from(["no", "time", "leadtime", "location"]))}
         return {"spec": spec, "layout": layout}
     return s()
+
+
+def _label_error(text):
+    """None when matplotlib can lay out `text` as a label (what every plot does with the units), else the error."""
+    try:
+        from matplotlib.mathtext import MathTextParser
+        if text.count("$") >= 2:
+            MathTextParser("agg").parse(text)
+        return None
+    except Exception as e:  # noqa
+        return "%s: %s" % (type(e).__name__, str(e).splitlines()[0][:80])
 
 
 def normalise(spec, layout):
@@ -200,6 +212,10 @@ def check_agree(case, ctx):
     # variable metadata
     var = spec["var"]
     units_nc = inc.variable.units.replace("$", "")
+    for who, u in (("nc", inc.variable.units), ("txt", itx.variable.units)):
+        err = _label_error(u)
+        if err:
+            ctx.fail("C10/agree/variable-units-unusable", sub, "%s reader gives units %r for %r, which cannot be drawn as an axis label: %s" % (who, u, var["units"], err))
     if inc.variable.name != var["name"] or units_nc != var["units"] or itx.variable.name != var["name"] or itx.variable.units != var["units"]:
         ctx.fail("C10/agree/variable", sub, "variable nc=(%r,%r) txt=(%r,%r), written (%r,%r)" % (inc.variable.name, inc.variable.units, itx.variable.name, itx.variable.units, var["name"], var["units"]))
     for nm in ("x0", "x1"):
